@@ -2,6 +2,7 @@
 import itertools
 import os
 import shutil
+import zlib
 
 from common import S, run_batch, unS
 from loadsim import FsSim, make_enforcer, enc_defaults, observe, model_history, fresh_root
@@ -55,6 +56,11 @@ def do_job(root, row, new_cs, old_cs, tier):
         files[old_name] = ovr_old_value
     elif old_ovr == 'alias':
         files[old_name] = 'rule:' + new_name
+    elif old_ovr == 'alias-list':
+        # the same alias in the list spelling of the rule language
+        files[old_name] = [['rule:' + new_name]]
+    elif old_ovr == 'alias-paren':
+        files[old_name] = '( rule:%s )' % new_name
     elif old_ovr == 'deny':
         ovr_old_value = '!'               # an explicit deny is an override like any other
         files[old_name] = '!'
@@ -76,13 +82,15 @@ def do_job(root, row, new_cs, old_cs, tier):
     else:
         # the same names overridden in two layered files with different values: the later
         # layer (the directory) must govern, also in the record of file rules
-        stale = {k: ('role:stale' if not v.startswith('rule:') else 'role:stale_alias') for k, v in files.items()}
+        stale = {k: ('role:stale' if not 'rule:' in str(v) else 'role:stale_alias') for k, v in files.items()}
         if old_ovr == 'arbitrary' and renamed:
             stale[old_name] = 'rule:' + new_name      # an alias superseded by a real override
         fs.write_main(stale, 'json')
         fs.write('policy.d', 'ovr.yaml', files, 'yaml')
     fs.sync()
-    e = make_enforcer(root, defaults, enforce_new_defaults=enforce_new)
+    # how the option got its value must not matter
+    enw_via = ['override', 'config_file', 'lib_set_defaults', 'override'][zlib.crc32(repr(row).encode()) % 4]
+    e = make_enforcer(root, defaults, enforce_new_defaults=enforce_new, enw_via=enw_via)
     e.load_rules()
     obs = observe(e)
     corr = None
@@ -114,7 +122,10 @@ def do_job(root, row, new_cs, old_cs, tier):
         if tier == 'quick' and m % 5:
             continue
         roles = [r for i, r in enumerate(ROLES) if (m >> i) & 1]
-        got = bool(e.enforce(new_name, {}, {'roles': roles}))
+        try:
+            got = bool(e.enforce(new_name, {}, {'roles': roles}))
+        except Exception as ex:   # noqa
+            got = 'EXC ' + type(ex).__name__
         want = bool(pe.enforce('x', {}, {'roles': roles}))
         decs.append(got)
         if got != want:
@@ -168,6 +179,7 @@ def do_job(root, row, new_cs, old_cs, tier):
                               {'kind': 'failing-input', 'suite': 'spec-c11',
                                'input': {'row': list(row), 'new': new_cs, 'old': old_cs, 'emptied': how},
                                'expected': want_s, 'observed': got_s}))
+    e._verif_restore()
     return viols, corr, key
 
 
@@ -185,7 +197,7 @@ def _worker(args):
 def all_rows():
     rows = []
     for renamed, same_str, enforce_new, new_ovr, old_ovr, where, shared in itertools.product(
-            [True, False], [True, False], [True, False], [False, True], ['absent', 'arbitrary', 'alias', 'prefixref', 'deny'],
+            [True, False], [True, False], [True, False], [False, True], ['absent', 'arbitrary', 'alias', 'prefixref', 'deny', 'alias-list', 'alias-paren'],
             ['main', 'dir', 'both', 'dironly'], [0, 1, 2, 3]):
         if not renamed and old_ovr != 'absent':
             continue        # same-name deprecation: an "old name" override IS a new-name override
